@@ -293,12 +293,13 @@ def members_of(m: Model, cap, rng):
         vals.append(q)
         if member(m, -q):
             vals.append(-q)
-    vals = sorted(set(vals))
+    vals = sorted(set(vals), key=lambda v: (abs(v), v))
     if len(vals) > cap:
+        # a wrong containment claim shows at the extremes: keep the smallest and the largest magnitudes
         k = cap // 4
         mid = vals[k:-k]
         vals = vals[:k] + rng.sample(mid, cap - 2 * k) + vals[-k:]
-        vals.sort()
+    vals.sort()
     out = list(vals) + [PZERO]
     if m.has_neg_zero:
         out.append(NZERO)
